@@ -60,25 +60,29 @@ Definition vis_ok (st : spill) (W : list B) : Prop :=
       exists fl, sp_file st = Some fl /\ firstn n fl = W /\ (ws_finished (sp_status st) = true -> length fl = n)
   end.
 
-Definition reader_ok (W : list B) (r : reader) : Prop :=
+Definition sp_or_err (s : wstatus B) : Prop := ws_error s = true \/ exists n, ws_loc s = LSpilled n.
+
+(* a live reader that has opened the file sits right after the batches it has delivered, and the
+   published status is (and stays) "spilled" or "error" *)
+Definition reader_ok (s : wstatus B) (W : list B) (r : reader) : Prop :=
   rd_read r <= length W /\
   (rd_done r = false ->
      match rd_cursor r with
      | None => True
-     | Some (pos, fin) => pos = rd_read r /\ fin = false
+     | Some (pos, fin) => pos = rd_read r /\ fin = false /\ sp_or_err s
      end).
 
 (* between two sender calls the sender state agrees with what is published *)
 Definition sender_ok (st : spill) (W : list B) : Prop :=
   match sp_state st with
   | SBuffering bs => bs = W /\ sp_file st = None /\ sp_status st = status_of (SBuffering W)
-  | SSpilling n => n = length W /\ sp_file st = Some W /\ sp_status st = status_of (SSpilling B n)
+  | SSpilling n => n = length W /\ sp_file st = Some W /\ sp_status st = status_of (SSpilling n)
   | SFinished _ _ => True
   | SErrored => True
   end.
 
 Definition Inv (st : spill) (W : list B) : Prop :=
-  vis_ok st W /\ sender_ok st W /\ Forall (reader_ok W) (sp_readers st).
+  vis_ok st W /\ sender_ok st W /\ Forall (reader_ok (sp_status st) W) (sp_readers st).
 
 Definition same_core (a b : spill) : Prop :=
   sp_limit a = sp_limit b /\ sp_state a = sp_state b /\ sp_status a = sp_status b /\
@@ -91,8 +95,11 @@ Proof. unfold same_core. intuition congruence. Qed.
 Lemma vis_ok_core a b W : same_core a b -> vis_ok a W -> vis_ok b W.
 Proof. unfold same_core, vis_ok. intros (_ & _ & -> & -> & _) H. exact H. Qed.
 
-Lemma reader_ok_mono W X r : reader_ok W r -> reader_ok (W ++ X) r.
-Proof. unfold reader_ok. rewrite app_length. intros (H1 & H2). split; [lia | exact H2]. Qed.
+Lemma reader_ok_mono s s' W X r : (sp_or_err s -> sp_or_err s') -> reader_ok s W r -> reader_ok s' (W ++ X) r.
+Proof.
+  unfold reader_ok. rewrite app_length. intros Hs (H1 & H2). split; [lia|].
+  intro Hd. specialize (H2 Hd). destruct (rd_cursor r) as [[pos fin]|]; [|exact I]. intuition.
+Qed.
 
 Lemma skip_read_ok (fl : list B) : forall k p, p + k <= length fl -> skip_read ipc k fl (p, false) = (p + k, false).
 Proof.
@@ -104,11 +111,11 @@ Qed.
 
 (* ------------------------------------------------------------------ one reader poll *)
 Lemma reader_read_spec (st : spill) (W : list B) (r : reader) :
-  vis_ok st W -> reader_ok W r ->
+  vis_ok st W -> reader_ok (sp_status st) W r ->
   let '(o, r') := reader_read st r in
-  reader_ok W r' /\
+  reader_ok (sp_status st) W r' /\
   match o with
-  | OBatch b => nth_error W (rd_read r) = Some b /\ rd_read r' = S (rd_read r)
+  | OBatch b => nth_error W (rd_read r) = Some b /\ rd_read r' = S (rd_read r) /\ rd_done r' = false
   | _ => rd_read r' = rd_read r
   end.
 Proof.
@@ -123,14 +130,17 @@ Proof.
   cbn [orb] in Ew. apply negb_false_iff in Ew.
   unfold batches_written in Ew.
   destruct (ws_loc (sp_status st)) as [bs|n] eqn:El.
-  - subst bs. destruct (nth_error W (rd_read r)) as [b|] eqn:En.
-    + split; [split; cbn [rd_read rd_cursor rd_done]; [|intros _; exact Hcur] | split; [reflexivity | reflexivity]].
+  - subst bs.
+    assert (Hnc : rd_cursor r = None).
+    { destruct (rd_cursor r) as [[pos fin]|]; [|reflexivity]. destruct Hcur as (_ & _ & [He|(m & Hm)]); congruence. }
+    destruct (nth_error W (rd_read r)) as [b|] eqn:En.
+    + split; [split; cbn [rd_read rd_cursor rd_done]; [|intros _; rewrite Hnc; exact I] | split; [reflexivity | split; reflexivity]].
       assert (rd_read r < length W) by (apply nth_error_Some; congruence). lia.
     + split; [split; cbn [rd_read rd_finish rd_done]; [exact Hle | discriminate] | reflexivity].
   - destruct Hvis as (Hn & fl & Hfile & Hfirst & Hfin). rewrite Hfile.
     assert (Hcurs : match rd_cursor r with Some c => c | None => skip_read ipc (rd_read r) fl (0, false) end = (rd_read r, false)).
     { destruct (rd_cursor r) as [[pos fin]|].
-      - destruct Hcur as (-> & ->). reflexivity.
+      - destruct Hcur as (-> & -> & _). reflexivity.
       - rewrite skip_read_ok; [reflexivity|]. cbn [Nat.add].
         assert (length (firstn n fl) = length W) by (rewrite Hfirst; reflexivity). rewrite firstn_length in H. lia. }
     rewrite Hcurs. unfold file_read.
@@ -141,13 +151,13 @@ Proof.
         - specialize (Hfin eq_refl). assert (rd_read r < length fl) by (apply nth_error_Some; congruence). lia.
         - cbn [orb] in Ew. apply Nat.ltb_lt in Ew. exact Ew. }
       rewrite (nth_error_firstn_eq fl W n (rd_read r) Hfirst Hlt) in En.
-      split; [split; cbn [rd_read rd_cursor rd_done]; [lia | intros _; split; reflexivity] | split; [exact En | reflexivity]].
+      split; [split; cbn [rd_read rd_cursor rd_done]; [lia | intros _; split; [reflexivity | split; [reflexivity | right; exists n; exact El]]] | split; [exact En | split; reflexivity]].
     + split; [split; cbn [rd_read rd_cursor rd_done]; [exact Hle | discriminate] | reflexivity].
 Qed.
 
 (* progress: what a poll of a live reader returns, in terms of W only *)
 Lemma reader_read_live (st : spill) (W : list B) (r : reader) :
-  vis_ok st W -> reader_ok W r -> rd_done r = false -> ws_error (sp_status st) = false ->
+  vis_ok st W -> reader_ok (sp_status st) W r -> rd_done r = false -> ws_error (sp_status st) = false ->
   fst (reader_read st r) =
     match nth_error W (rd_read r) with
     | Some b => OBatch b
@@ -170,7 +180,7 @@ Proof.
     { assert (length (firstn n fl) = length W) by (rewrite Hfirst; reflexivity). rewrite firstn_length in H. lia. }
     assert (Hcurs : match rd_cursor r with Some c => c | None => skip_read ipc (rd_read r) fl (0, false) end = (rd_read r, false)).
     { destruct (rd_cursor r) as [[pos fin]|].
-      - destruct Hcur as (-> & ->). reflexivity.
+      - destruct Hcur as (-> & -> & _). reflexivity.
       - rewrite skip_read_ok; [reflexivity|]. cbn [Nat.add]. lia. }
     destruct (nth_error W (rd_read r)) as [b|] eqn:En.
     + assert (Hlt : rd_read r < n) by (subst n; apply nth_error_Some; congruence).
@@ -190,10 +200,13 @@ Lemma nread_set_readers (st : spill) rs k :
   nread (set_readers st rs) k = match nth_error rs k with Some r => rd_read r | None => 0 end.
 Proof. reflexivity. Qed.
 
+Lemma nread_readers (a b : spill) k : sp_readers a = sp_readers b -> nread a k = nread b k.
+Proof. unfold nread. intros ->. reflexivity. Qed.
+
 Lemma rstep_inv (st : spill) (W : list B) (e : revent) :
-  vis_ok st W -> Forall (reader_ok W) (sp_readers st) ->
+  vis_ok st W -> Forall (reader_ok (sp_status st) W) (sp_readers st) ->
   let '(st', o) := rstep st e in
-  same_core st st' /\ Forall (reader_ok W) (sp_readers st') /\
+  same_core st st' /\ Forall (reader_ok (sp_status st) W) (sp_readers st') /\
   forall k, firstn (nread st' k) W = firstn (nread st k) W ++ rdelivered k [e] [o].
 Proof.
   intros Hvis HF. destruct e as [|j]; cbn [Model_Spill.rstep].
@@ -208,7 +221,7 @@ Proof.
         destruct (k - length (sp_readers st)) as [|d]; cbn [nth_error rd_read]; [reflexivity|].
         destruct d; reflexivity.
   - destruct (nth_error (sp_readers st) j) as [r|] eqn:Ej.
-    + assert (Hr : reader_ok W r). { rewrite Forall_forall in HF. apply HF. eapply nth_error_In; exact Ej. }
+    + assert (Hr : reader_ok (sp_status st) W r). { rewrite Forall_forall in HF. apply HF. eapply nth_error_In; exact Ej. }
       pose proof (reader_read_spec st W r Hvis Hr) as Hspec.
       destruct (reader_read st r) as [o r'] eqn:Er. destruct Hspec as (Hr' & Ho).
       split; [repeat split|]. split.
@@ -219,42 +232,54 @@ Proof.
         destruct (k =? j) eqn:Ekj.
         -- apply Nat.eqb_eq in Ekj. subst k. rewrite Ej.
            destruct o; cbn [rdelivered]; try (rewrite Ho, app_nil_r; reflexivity).
-           destruct Ho as (Hn & ->). rewrite Nat.eqb_refl. apply firstn_snoc_nth. exact Hn.
+           destruct Ho as (Hn & -> & _). rewrite Nat.eqb_refl. apply firstn_snoc_nth. exact Hn.
         -- assert (Hjk : (j =? k) = false) by (rewrite Nat.eqb_sym; exact Ekj).
            destruct o; cbn [rdelivered]; rewrite ?Hjk, app_nil_r; reflexivity.
     + split; [repeat split|]. split; [exact HF|]. intro k. cbn [rdelivered]. rewrite app_nil_r. reflexivity.
 Qed.
 
-Lemma rdelivered_cons k e o es os : rdelivered k (e :: es) (o :: os) = rdelivered k [e] [o] ++ rdelivered k es os.
+Lemma rdelivered_cons k e (o : robs) es os : rdelivered k (e :: es) (o :: os) = rdelivered k [e] [o] ++ rdelivered k es os.
 Proof.
   destruct e as [|j]; [reflexivity|]. destruct o; try reflexivity. cbn [rdelivered]. destruct (j =? k); reflexivity.
 Qed.
 
 Lemma rsteps_inv (W : list B) : forall (es : list revent) (st : spill),
-  vis_ok st W -> Forall (reader_ok W) (sp_readers st) ->
+  vis_ok st W -> Forall (reader_ok (sp_status st) W) (sp_readers st) ->
   let '(st', os) := rsteps st es in
-  same_core st st' /\ Forall (reader_ok W) (sp_readers st') /\
+  same_core st st' /\ Forall (reader_ok (sp_status st) W) (sp_readers st') /\
   forall k, firstn (nread st' k) W = firstn (nread st k) W ++ rdelivered k es os.
 Proof.
   induction es as [|e es IH]; intros st Hvis HF; cbn [Model_Spill.rsteps].
   - split; [apply same_core_refl|]. split; [exact HF|]. intro k. cbn [rdelivered]. rewrite app_nil_r. reflexivity.
   - pose proof (rstep_inv st W e Hvis HF) as H1. destruct (rstep st e) as [st1 o].
     destruct H1 as (Hc1 & HF1 & Hd1).
+    assert (Hst : sp_status st = sp_status st1) by (destruct Hc1 as (_ & _ & H & _); exact H).
+    rewrite Hst in HF1.
     pose proof (IH st1 (vis_ok_core _ _ _ Hc1 Hvis) HF1) as H2. destruct (rsteps st1 es) as [st2 os].
     destruct H2 as (Hc2 & HF2 & Hd2).
-    split; [eapply same_core_trans; eassumption|]. split; [exact HF2|].
-    intro k. rewrite Hd2, Hd1, rdelivered_cons, app_assoc. reflexivity.
+    split; [eapply same_core_trans; eassumption|]. split; [rewrite Hst; exact HF2|].
+    intro k. rewrite Hd2, Hd1, <- app_assoc. f_equal. symmetry. apply rdelivered_cons.
 Qed.
 
 (* ------------------------------------------------------------------ one event *)
-Lemma nread_le (st : spill) W k : Forall (reader_ok W) (sp_readers st) -> nread st k <= length W.
+Lemma nread_le (st : spill) s W k : Forall (reader_ok s W) (sp_readers st) -> nread st k <= length W.
 Proof.
   intro HF. unfold nread. destruct (nth_error (sp_readers st) k) as [r|] eqn:E; [|lia].
   rewrite Forall_forall in HF. apply (HF r). eapply nth_error_In; exact E.
 Qed.
 
-Lemma Forall_reader_mono W X rs : Forall (reader_ok W) rs -> Forall (reader_ok (W ++ X)) rs.
-Proof. intro H. eapply Forall_impl; [|exact H]. intros r. apply reader_ok_mono. Qed.
+Lemma Forall_reader_mono s s' W X rs : (sp_or_err s -> sp_or_err s') ->
+  Forall (reader_ok s W) rs -> Forall (reader_ok s' (W ++ X)) rs.
+Proof. intros Hs H. eapply Forall_impl; [|exact H]. intros r. apply reader_ok_mono. exact Hs. Qed.
+
+Lemma Forall_reader_status s s' W rs : (sp_or_err s -> sp_or_err s') ->
+  Forall (reader_ok s W) rs -> Forall (reader_ok s' W) rs.
+Proof.
+  intros Hs H. apply (Forall_reader_mono s s' W [] rs Hs) in H. rewrite app_nil_r in H. exact H.
+Qed.
+
+Lemma not_sp_or_err_buffering (bs : list B) : ~ sp_or_err (status_of (SBuffering bs)).
+Proof. intros [H|(n & H)]; discriminate. Qed.
 
 Lemma step_inv (st : spill) (W : list B) (e : event) :
   Inv st W ->
@@ -266,21 +291,21 @@ Proof.
   destruct e as [b total during|during| | |re]; cbn [Model_Spill.step].
   - (* write *)
     destruct (sp_alive st) eqn:Ea; cbn [negb].
-    2:{ cbn [ev_written ev_delivered]. rewrite !app_nil_r. split; [repeat split; assumption | reflexivity]. }
+    2:{ cbn [ev_written ev_delivered]. rewrite !app_nil_r. split; [repeat split; assumption | intro k; rewrite !app_nil_r; reflexivity]. }
     destruct st as [limit state status file alive readers]. cbn [sp_alive] in Ea. subst alive.
-    unfold sender_ok in Hsnd. cbn [sp_state sp_file sp_status] in Hsnd. cbn [sp_readers] in HF.
+    unfold sender_ok in Hsnd. cbn [sp_state sp_file sp_status] in Hsnd. cbn [sp_readers sp_status] in HF.
     unfold write_begin. cbn [sp_state sp_limit].
     destruct state as [bs|n|ob n|].
     + destruct Hsnd as (-> & -> & ->).
       destruct (limit <? total)%N.
       * (* first spill *)
-        cbn [set_state set_file sp_limit sp_state sp_status sp_file sp_alive sp_readers].
-        set (st1 := {| sp_limit := limit; sp_state := SSpilling B (S (length W)); sp_status := status_of (SBuffering W);
+        unfold set_state, set_file; cbn [sp_limit sp_state sp_status sp_file sp_alive sp_readers].
+        set (st1 := {| sp_limit := limit; sp_state := SSpilling (S (length W)); sp_status := status_of (SBuffering W);
                        sp_file := Some (W ++ [b]); sp_alive := true; sp_readers := readers |}).
         assert (Hv1 : vis_ok st1 W) by (right; reflexivity).
         pose proof (rsteps_inv W during st1 Hv1 HF) as H2. destruct (rsteps st1 during) as [st2 os].
         destruct H2 as ((Hl & Hs & Hst & Hfl & Hal) & HF2 & Hd2).
-        cbn [sp_limit sp_state sp_status sp_file sp_alive st1] in Hl, Hs, Hst, Hfl, Hal.
+        cbn [sp_limit sp_state sp_status sp_file sp_alive st1] in Hl, Hs, Hst, Hfl, Hal, HF2.
         cbn [ev_written ev_delivered].
         split.
         -- split; [|split].
@@ -289,37 +314,41 @@ Proof.
               split; [|discriminate]. apply firstn_all2. rewrite app_length. cbn. lia.
            ++ unfold sender_ok. cbn [publish sp_state sp_file sp_status]. rewrite <- Hs, <- Hfl.
               split; [rewrite app_length; cbn; lia|]. split; [reflexivity|]. f_equal.
-           ++ cbn [publish sp_readers]. apply Forall_reader_mono. exact HF2.
-        -- intro k. change (nread (publish st2) k) with (nread st2 k).
-           rewrite firstn_app_short by (apply nread_le; exact HF2). rewrite Hd2. reflexivity.
+           ++ cbn [publish sp_readers sp_status]. eapply Forall_reader_mono; [|exact HF2].
+              intro Hx. exfalso. exact (not_sp_or_err_buffering _ Hx).
+        -- intro k. rewrite (nread_readers (publish st2) st2 k eq_refl).
+           rewrite firstn_app_short by (eapply nread_le; exact HF2). rewrite Hd2. reflexivity.
       * (* stays in memory *)
-        cbn [set_state publish sp_limit sp_state sp_status sp_file sp_alive sp_readers].
+        unfold set_state, publish; cbn [sp_limit sp_state sp_status sp_file sp_alive sp_readers].
         set (st1 := {| sp_limit := limit; sp_state := SBuffering (W ++ [b]); sp_status := status_of (SBuffering (W ++ [b]));
                        sp_file := None; sp_alive := true; sp_readers := readers |}).
         assert (Hv1 : vis_ok st1 (W ++ [b])) by (right; reflexivity).
-        pose proof (rsteps_inv (W ++ [b]) during st1 Hv1 (Forall_reader_mono _ _ _ HF)) as H2.
+        assert (HF1 : Forall (reader_ok (sp_status st1) (W ++ [b])) (sp_readers st1)).
+        { cbn [st1 sp_status sp_readers]. eapply Forall_reader_mono; [|exact HF].
+          intro Hx. exfalso. exact (not_sp_or_err_buffering _ Hx). }
+        pose proof (rsteps_inv (W ++ [b]) during st1 Hv1 HF1) as H2.
         destruct (rsteps st1 during) as [st2 os].
         destruct H2 as ((Hl & Hs & Hst & Hfl & Hal) & HF2 & Hd2).
-        cbn [sp_limit sp_state sp_status sp_file sp_alive st1] in Hl, Hs, Hst, Hfl, Hal.
+        cbn [sp_limit sp_state sp_status sp_file sp_alive st1] in Hl, Hs, Hst, Hfl, Hal, HF2.
         cbn [ev_written ev_delivered].
         split.
         -- split; [|split].
            ++ right. rewrite <- Hst. reflexivity.
            ++ unfold sender_ok. rewrite <- Hs, <- Hfl, <- Hst. repeat split.
-           ++ exact HF2.
+           ++ rewrite <- Hst. exact HF2.
         -- intro k. rewrite Hd2. f_equal. change (nread st1 k) with (nread {| sp_limit := limit; sp_state := SBuffering W; sp_status := status_of (SBuffering W); sp_file := None; sp_alive := true; sp_readers := readers |} k).
-           apply firstn_app_short. apply nread_le. exact HF.
+           apply firstn_app_short. eapply nread_le. exact HF.
     + (* already spilling *)
       destruct Hsnd as (-> & -> & ->).
-      cbn [set_state set_file sp_limit sp_state sp_status sp_file sp_alive sp_readers].
-      set (st1 := {| sp_limit := limit; sp_state := SSpilling B (S (length W)); sp_status := status_of (SSpilling B (length W));
+      unfold set_state, set_file; cbn [sp_limit sp_state sp_status sp_file sp_alive sp_readers].
+      set (st1 := {| sp_limit := limit; sp_state := SSpilling (S (length W)); sp_status := status_of (SSpilling (length W));
                      sp_file := Some (W ++ [b]); sp_alive := true; sp_readers := readers |}).
       assert (Hv1 : vis_ok st1 W).
       { right. cbn. split; [reflexivity|]. exists (W ++ [b]). split; [reflexivity|]. split; [|discriminate].
         rewrite firstn_app_short by lia. apply firstn_all. }
       pose proof (rsteps_inv W during st1 Hv1 HF) as H2. destruct (rsteps st1 during) as [st2 os].
       destruct H2 as ((Hl & Hs & Hst & Hfl & Hal) & HF2 & Hd2).
-      cbn [sp_limit sp_state sp_status sp_file sp_alive st1] in Hl, Hs, Hst, Hfl, Hal.
+      cbn [sp_limit sp_state sp_status sp_file sp_alive st1] in Hl, Hs, Hst, Hfl, Hal, HF2.
       cbn [ev_written ev_delivered].
       split.
       * split; [|split].
@@ -328,76 +357,312 @@ Proof.
            split; [|discriminate]. apply firstn_all2. rewrite app_length. cbn. lia.
         -- unfold sender_ok. cbn [publish sp_state sp_file sp_status]. rewrite <- Hs, <- Hfl.
            split; [rewrite app_length; cbn; lia|]. split; [reflexivity|]. f_equal.
-        -- cbn [publish sp_readers]. apply Forall_reader_mono. exact HF2.
-      * intro k. change (nread (publish st2) k) with (nread st2 k).
-        rewrite firstn_app_short by (apply nread_le; exact HF2). rewrite Hd2. reflexivity.
+        -- cbn [publish sp_readers sp_status]. rewrite <- Hs. eapply Forall_reader_mono; [|exact HF2].
+           intros _. right. eexists. reflexivity.
+      * intro k. rewrite (nread_readers (publish st2) st2 k eq_refl).
+        rewrite firstn_app_short by (eapply nread_le; exact HF2). rewrite Hd2. reflexivity.
     + (* finished: Err *)
       set (st1 := {| sp_limit := limit; sp_state := SFinished ob n; sp_status := status; sp_file := file; sp_alive := true; sp_readers := readers |}) in *.
       pose proof (rsteps_inv W during st1 Hvis HF) as H2. destruct (rsteps st1 during) as [st2 os].
       destruct H2 as (Hc & HF2 & Hd2). cbn [ev_written ev_delivered]. rewrite !app_nil_r.
-      split; [|exact Hd2]. split; [eapply vis_ok_core; eassumption|]. split; [|exact HF2].
-      unfold sender_ok. destruct Hc as (_ & <- & _). exact I.
-    + set (st1 := {| sp_limit := limit; sp_state := SErrored B; sp_status := status; sp_file := file; sp_alive := true; sp_readers := readers |}) in *.
+      split; [|exact Hd2]. split; [eapply vis_ok_core; eassumption|].
+      destruct Hc as (_ & Hs & Hst & _). split; [unfold sender_ok; rewrite <- Hs; exact I | rewrite <- Hst; exact HF2].
+    + set (st1 := {| sp_limit := limit; sp_state := SErrored; sp_status := status; sp_file := file; sp_alive := true; sp_readers := readers |}) in *.
       pose proof (rsteps_inv W during st1 Hvis HF) as H2. destruct (rsteps st1 during) as [st2 os].
       destruct H2 as (Hc & HF2 & Hd2). cbn [ev_written ev_delivered]. rewrite !app_nil_r.
-      split; [|exact Hd2]. split; [eapply vis_ok_core; eassumption|]. split; [|exact HF2].
-      unfold sender_ok. destruct Hc as (_ & <- & _). exact I.
+      split; [|exact Hd2]. split; [eapply vis_ok_core; eassumption|].
+      destruct Hc as (_ & Hs & Hst & _). split; [unfold sender_ok; rewrite <- Hs; exact I | rewrite <- Hst; exact HF2].
   - (* finish *)
     destruct (sp_alive st) eqn:Ea; cbn [negb].
-    2:{ cbn [ev_written ev_delivered]. rewrite !app_nil_r. split; [repeat split; assumption | reflexivity]. }
+    2:{ cbn [ev_written ev_delivered]. rewrite !app_nil_r. split; [repeat split; assumption | intro k; rewrite !app_nil_r; reflexivity]. }
     destruct st as [limit state status file alive readers]. cbn [sp_alive] in Ea. subst alive.
-    unfold sender_ok in Hsnd. cbn [sp_state sp_file sp_status] in Hsnd. cbn [sp_readers] in HF.
+    unfold sender_ok in Hsnd. cbn [sp_state sp_file sp_status] in Hsnd. cbn [sp_readers sp_status] in HF.
     unfold finish_begin. cbn [sp_state]. cbn [ev_written]. rewrite app_nil_r.
     destruct state as [bs|n|ob n|].
     + destruct Hsnd as (-> & -> & ->).
-      cbn [set_state publish sp_limit sp_state sp_status sp_file sp_alive sp_readers].
+      unfold set_state, publish; cbn [sp_limit sp_state sp_status sp_file sp_alive sp_readers].
       set (st1 := {| sp_limit := limit; sp_state := SFinished (Some W) (length W); sp_status := status_of (SFinished (Some W) (length W));
                      sp_file := None; sp_alive := true; sp_readers := readers |}).
       assert (Hv1 : vis_ok st1 W) by (right; reflexivity).
-      pose proof (rsteps_inv W during st1 Hv1 HF) as H2. destruct (rsteps st1 during) as [st2 os].
+      assert (HF1 : Forall (reader_ok (sp_status st1) W) (sp_readers st1)).
+      { cbn [st1 sp_status sp_readers]. eapply Forall_reader_status; [|exact HF].
+        intro Hx. exfalso. exact (not_sp_or_err_buffering _ Hx). }
+      pose proof (rsteps_inv W during st1 Hv1 HF1) as H2. destruct (rsteps st1 during) as [st2 os].
       destruct H2 as (Hc & HF2 & Hd2). cbn [ev_delivered].
-      split; [|exact Hd2]. split; [eapply vis_ok_core; eassumption|]. split; [|exact HF2].
-      unfold sender_ok. destruct Hc as (_ & <- & _). exact I.
+      split; [|exact Hd2]. split; [eapply vis_ok_core; eassumption|].
+      destruct Hc as (_ & Hs & Hst & _). split; [unfold sender_ok; rewrite <- Hs; exact I | rewrite <- Hst; exact HF2].
     + destruct Hsnd as (-> & -> & ->).
-      cbn [set_state sp_limit sp_state sp_status sp_file sp_alive sp_readers].
-      set (st1 := {| sp_limit := limit; sp_state := SFinished None 0; sp_status := status_of (SSpilling B (length W));
+      unfold set_state; cbn [sp_limit sp_state sp_status sp_file sp_alive sp_readers].
+      set (st1 := {| sp_limit := limit; sp_state := SFinished None 0; sp_status := status_of (SSpilling (length W));
                      sp_file := Some W; sp_alive := true; sp_readers := readers |}).
       assert (Hv1 : vis_ok st1 W).
       { right. cbn. split; [reflexivity|]. exists W. split; [reflexivity|]. split; [apply firstn_all | discriminate]. }
       pose proof (rsteps_inv W during st1 Hv1 HF) as H2. destruct (rsteps st1 during) as [st2 os].
       destruct H2 as ((Hl & Hs & Hst & Hfl & Hal) & HF2 & Hd2).
-      cbn [sp_limit sp_state sp_status sp_file sp_alive st1] in Hl, Hs, Hst, Hfl, Hal.
+      cbn [sp_limit sp_state sp_status sp_file sp_alive st1] in Hl, Hs, Hst, Hfl, Hal, HF2.
       cbn [ev_delivered].
       split; [|intro k; change (nread (publish (set_state st2 (SFinished None (length W)))) k) with (nread st2 k); apply Hd2].
-      split; [|split; [exact I | exact HF2]].
-      right. cbn [publish set_state sp_status sp_file sp_state]. rewrite <- Hfl. cbn [status_of ws_loc ws_finished].
-      split; [reflexivity|]. exists W. split; [reflexivity|]. split; [apply firstn_all | reflexivity].
-    + cbn [set_state sp_limit sp_state sp_status sp_file sp_alive sp_readers].
+      split; [|split; [exact I|]].
+      * right. cbn [publish set_state sp_status sp_file sp_state]. rewrite <- Hfl. cbn [status_of ws_loc ws_finished].
+        split; [reflexivity|]. exists W. split; [reflexivity|]. split; [apply firstn_all | reflexivity].
+      * cbn [publish set_state sp_readers sp_status sp_state]. eapply Forall_reader_status; [|exact HF2].
+        intros _. right. eexists. reflexivity.
+    + unfold set_state; cbn [sp_limit sp_state sp_status sp_file sp_alive sp_readers].
       set (st1 := {| sp_limit := limit; sp_state := SFinished None 0; sp_status := status; sp_file := file; sp_alive := true; sp_readers := readers |}).
       assert (Hv1 : vis_ok st1 W) by exact Hvis.
       pose proof (rsteps_inv W during st1 Hv1 HF) as H2. destruct (rsteps st1 during) as [st2 os].
       destruct H2 as (Hc & HF2 & Hd2). cbn [ev_delivered].
-      split; [|exact Hd2]. split; [eapply vis_ok_core; eassumption|]. split; [|exact HF2].
-      unfold sender_ok. destruct Hc as (_ & <- & _). exact I.
-    + cbn [set_state sp_limit sp_state sp_status sp_file sp_alive sp_readers].
+      split; [|exact Hd2]. split; [eapply vis_ok_core; eassumption|].
+      destruct Hc as (_ & Hs & Hst & _). split; [unfold sender_ok; rewrite <- Hs; exact I | rewrite <- Hst; exact HF2].
+    + unfold set_state; cbn [sp_limit sp_state sp_status sp_file sp_alive sp_readers].
       set (st1 := {| sp_limit := limit; sp_state := SFinished None 0; sp_status := status; sp_file := file; sp_alive := true; sp_readers := readers |}).
       assert (Hv1 : vis_ok st1 W) by exact Hvis.
       pose proof (rsteps_inv W during st1 Hv1 HF) as H2. destruct (rsteps st1 during) as [st2 os].
       destruct H2 as (Hc & HF2 & Hd2). cbn [ev_delivered].
-      split; [|exact Hd2]. split; [eapply vis_ok_core; eassumption|]. split; [|exact HF2].
-      unfold sender_ok. destruct Hc as (_ & <- & _). exact I.
+      split; [|exact Hd2]. split; [eapply vis_ok_core; eassumption|].
+      destruct Hc as (_ & Hs & Hst & _). split; [unfold sender_ok; rewrite <- Hs; exact I | rewrite <- Hst; exact HF2].
   - (* send_error *)
     cbn [ev_written ev_delivered]. rewrite !app_nil_r.
-    destruct (sp_alive st); cbn [negb]; (split; [|reflexivity]); [|repeat split; assumption].
-    split; [left; reflexivity|]. split; [exact I | exact HF].
+    destruct (sp_alive st); cbn [negb]; (split; [|intro k; rewrite !app_nil_r; reflexivity]); [|repeat split; assumption].
+    split; [left; reflexivity|]. split; [exact I|].
+    cbn [publish set_state sp_readers sp_status sp_state]. eapply Forall_reader_status; [|exact HF].
+    intros _. left. reflexivity.
   - (* drop *)
-    cbn [ev_written ev_delivered]. rewrite !app_nil_r. split; [|reflexivity].
+    cbn [ev_written ev_delivered]. rewrite !app_nil_r. split; [|intro k; rewrite !app_nil_r; reflexivity].
     split; [exact Hvis|]. split; [exact Hsnd | exact HF].
   - (* reader event *)
     pose proof (rstep_inv st W re Hvis HF) as H1. destruct (rstep st re) as [st1 o].
     destruct H1 as (Hc & HF1 & Hd1). cbn [ev_written ev_delivered]. rewrite app_nil_r.
-    split; [|exact Hd1]. split; [eapply vis_ok_core; eassumption|]. split; [|exact HF1].
-    unfold sender_ok. destruct Hc as (_ & <- & <- & <- & _). exact Hsnd.
+    split; [|exact Hd1]. split; [eapply vis_ok_core; eassumption|].
+    destruct Hc as (_ & Hs & Hst & Hfl & _).
+    split; [unfold sender_ok; rewrite <- Hs, <- Hst, <- Hfl; exact Hsnd | rewrite <- Hst; exact HF1].
+Qed.
+
+(* ------------------------------------------------------------------ whole schedules *)
+Lemma Inv_init (limit : N) : Inv (init limit) [].
+Proof.
+  split; [right; reflexivity|]. split; [repeat split | constructor].
+Qed.
+
+Lemma run_inv : forall (es : list event) (st : spill) (W : list B), Inv st W ->
+  let '(st', os) := run st es in
+  Inv st' (W ++ written es os) /\
+  forall k, firstn (nread st' k) (W ++ written es os) = firstn (nread st k) W ++ delivered k es os.
+Proof.
+  induction es as [|e es IH]; intros st W HI; cbn [Model_Spill.run].
+  - cbn [written delivered]. rewrite !app_nil_r. split; [exact HI|]. intro k. rewrite !app_nil_r. reflexivity.
+  - pose proof (step_inv st W e HI) as H1. destruct (step st e) as [st1 o]. destruct H1 as (HI1 & Hd1).
+    pose proof (IH st1 _ HI1) as H2. destruct (run st1 es) as [st2 os]. destruct H2 as (HI2 & Hd2).
+    cbn [written delivered]. rewrite app_assoc. split; [exact HI2|].
+    intro k. rewrite Hd2, Hd1, app_assoc. reflexivity.
+Qed.
+
+(* T1: at every moment, under every schedule and memory limit, what reader k has received is
+   exactly the first [batches_read] batches of what was written - no loss, duplication or reordering *)
+Theorem replay_prefix (limit : N) (es : list event) (k : nat) :
+  let '(st, os) := run (init limit) es in
+  delivered k es os = firstn (nread st k) (written es os) /\ nread st k <= length (written es os).
+Proof.
+  pose proof (run_inv es (init limit) [] (Inv_init limit)) as H. destruct (run (init limit) es) as [st os].
+  destruct H as (HI & Hd). cbn [app] in HI, Hd. split.
+  - specialize (Hd k). rewrite Hd, firstn_nil. reflexivity.
+  - destruct HI as (_ & _ & HF). eapply nread_le. exact HF.
+Qed.
+
+(* T2: what the next poll of a live reader returns in any reachable state *)
+Theorem replay_poll (limit : N) (es : list event) :
+  let '(st, os) := run (init limit) es in
+  forall k r, nth_error (sp_readers st) k = Some r -> rd_done r = false -> ws_error (sp_status st) = false ->
+    fst (reader_read st r) =
+      match nth_error (written es os) (rd_read r) with
+      | Some b => OBatch b
+      | None => if ws_finished (sp_status st) then OEnd
+                else if sp_alive st then OPending else OErrR REDropped
+      end.
+Proof.
+  pose proof (run_inv es (init limit) [] (Inv_init limit)) as H. destruct (run (init limit) es) as [st os].
+  destruct H as ((Hvis & _ & HF) & _). cbn [app] in Hvis, HF.
+  intros k r Hk Hd He. apply reader_read_live; try assumption.
+  rewrite Forall_forall in HF. apply HF. eapply nth_error_In; exact Hk.
+Qed.
+
+(* ---- status vs. trace: finished / error flags are exactly "finish returned Ok" / "an error was sent" *)
+Definition is_finish_ok (o : obs) : bool := match o with OFinish SOk _ => true | _ => false end.
+Definition is_sent (o : obs) : bool := match o with OSent => true | _ => false end.
+
+Lemma rstep_core (st : spill) (e : revent) : same_core st (fst (rstep st e)).
+Proof.
+  destruct e as [|j]; cbn [Model_Spill.rstep]; [repeat split|].
+  destruct (nth_error (sp_readers st) j) as [r|]; [|repeat split].
+  destruct (reader_read st r). repeat split.
+Qed.
+
+Lemma rsteps_core : forall (es : list revent) (st : spill), same_core st (fst (rsteps st es)).
+Proof.
+  induction es as [|e es IH]; intro st; cbn [Model_Spill.rsteps]; [apply same_core_refl|].
+  pose proof (rstep_core st e) as H1. destruct (rstep st e) as [st1 o]. cbn [fst] in H1.
+  pose proof (IH st1) as H2. destruct (rsteps st1 es) as [st2 os]. cbn [fst] in *.
+  eapply same_core_trans; eassumption.
+Qed.
+
+Definition TInv (st : spill) (f s : bool) : Prop :=
+  ws_error (sp_status st) = s /\ ws_finished (sp_status st) = f || s /\
+  match sp_state st with
+  | SBuffering _ | SSpilling _ => f = false /\ s = false
+  | _ => True
+  end.
+
+Lemma step_tinv (st : spill) (e : event) (f s : bool) : TInv st f s ->
+  let '(st', o) := step st e in TInv st' (f || is_finish_ok o) (s || is_sent o).
+Proof.
+  intros (He & Hf & Hst).
+  destruct e as [b total during|during| | |re]; cbn [Model_Spill.step].
+  - destruct (sp_alive st); cbn [negb]; [|cbn [is_finish_ok is_sent]; rewrite !orb_false_r; repeat split; assumption].
+    destruct st as [limit state status file alive readers]. cbn [sp_status sp_state] in *.
+    unfold write_begin. cbn [sp_state sp_limit].
+    destruct state as [bs|n|ob n|].
+    + destruct Hst as (-> & ->). destruct (limit <? total)%N.
+      * unfold set_state, set_file; cbn [sp_limit sp_state sp_status sp_file sp_alive sp_readers].
+        match goal with |- context [rsteps ?x during] => pose proof (rsteps_core during x) as Hc; destruct (rsteps x during) as [st2 os] end.
+        cbn [fst] in Hc. destruct Hc as (_ & Hs & _). cbn [sp_state] in Hs.
+        cbn [is_finish_ok is_sent orb]. unfold TInv, publish; cbn [sp_status sp_state]. rewrite <- Hs. cbn. repeat split.
+      * unfold set_state, publish; cbn [sp_limit sp_state sp_status sp_file sp_alive sp_readers].
+        match goal with |- context [rsteps ?x during] => pose proof (rsteps_core during x) as Hc; destruct (rsteps x during) as [st2 os] end.
+        cbn [fst] in Hc. destruct Hc as (_ & Hs & Hst2 & _). cbn [sp_state sp_status] in Hs, Hst2.
+        cbn [is_finish_ok is_sent orb]. unfold TInv. rewrite <- Hs, <- Hst2. cbn. repeat split.
+    + destruct Hst as (-> & ->).
+      unfold set_state, set_file; cbn [sp_limit sp_state sp_status sp_file sp_alive sp_readers].
+      match goal with |- context [rsteps ?x during] => pose proof (rsteps_core during x) as Hc; destruct (rsteps x during) as [st2 os] end.
+      cbn [fst] in Hc. destruct Hc as (_ & Hs & _). cbn [sp_state] in Hs.
+      cbn [is_finish_ok is_sent orb]. unfold TInv, publish; cbn [sp_status sp_state]. rewrite <- Hs. cbn. repeat split.
+    + match goal with |- context [rsteps ?x during] => pose proof (rsteps_core during x) as Hc; destruct (rsteps x during) as [st2 os] end.
+      cbn [fst] in Hc. destruct Hc as (_ & Hs & Hst2 & _). cbn [sp_state sp_status] in Hs, Hst2.
+      cbn [is_finish_ok is_sent]. rewrite !orb_false_r. unfold TInv. rewrite <- Hs, <- Hst2. repeat split; assumption.
+    + match goal with |- context [rsteps ?x during] => pose proof (rsteps_core during x) as Hc; destruct (rsteps x during) as [st2 os] end.
+      cbn [fst] in Hc. destruct Hc as (_ & Hs & Hst2 & _). cbn [sp_state sp_status] in Hs, Hst2.
+      cbn [is_finish_ok is_sent]. rewrite !orb_false_r. unfold TInv. rewrite <- Hs, <- Hst2. repeat split; assumption.
+  - destruct (sp_alive st); cbn [negb]; [|cbn [is_finish_ok is_sent]; rewrite !orb_false_r; repeat split; assumption].
+    destruct st as [limit state status file alive readers]. cbn [sp_status sp_state] in *.
+    unfold finish_begin. cbn [sp_state].
+    destruct state as [bs|n|ob n|].
+    + destruct Hst as (-> & ->).
+      unfold set_state, publish; cbn [sp_limit sp_state sp_status sp_file sp_alive sp_readers].
+      match goal with |- context [rsteps ?x during] => pose proof (rsteps_core during x) as Hc; destruct (rsteps x during) as [st2 os] end.
+      cbn [fst] in Hc. destruct Hc as (_ & Hs & Hst2 & _). cbn [sp_state sp_status] in Hs, Hst2.
+      cbn [is_finish_ok is_sent orb]. unfold TInv. rewrite <- Hs, <- Hst2. cbn. repeat split.
+    + destruct Hst as (-> & ->).
+      unfold set_state; cbn [sp_limit sp_state sp_status sp_file sp_alive sp_readers].
+      match goal with |- context [rsteps ?x during] => pose proof (rsteps_core during x) as Hc; destruct (rsteps x during) as [st2 os] end.
+      cbn [is_finish_ok is_sent orb]. unfold TInv, publish; cbn [sp_status sp_state]. cbn. repeat split.
+    + unfold set_state; cbn [sp_limit sp_state sp_status sp_file sp_alive sp_readers].
+      match goal with |- context [rsteps ?x during] => pose proof (rsteps_core during x) as Hc; destruct (rsteps x during) as [st2 os] end.
+      cbn [fst] in Hc. destruct Hc as (_ & Hs & Hst2 & _). cbn [sp_state sp_status] in Hs, Hst2.
+      cbn [is_finish_ok is_sent]. rewrite !orb_false_r. unfold TInv. rewrite <- Hs, <- Hst2. repeat split; assumption.
+    + unfold set_state; cbn [sp_limit sp_state sp_status sp_file sp_alive sp_readers].
+      match goal with |- context [rsteps ?x during] => pose proof (rsteps_core during x) as Hc; destruct (rsteps x during) as [st2 os] end.
+      cbn [fst] in Hc. destruct Hc as (_ & Hs & Hst2 & _). cbn [sp_state sp_status] in Hs, Hst2.
+      cbn [is_finish_ok is_sent]. rewrite !orb_false_r. unfold TInv. rewrite <- Hs, <- Hst2. repeat split; assumption.
+  - destruct (sp_alive st); cbn [negb is_finish_ok is_sent].
+    + rewrite orb_false_r, orb_true_r. unfold TInv, publish, set_state; cbn. rewrite orb_true_r. repeat split.
+    + rewrite !orb_false_r. repeat split; assumption.
+  - cbn [is_finish_ok is_sent]. rewrite !orb_false_r. repeat split; assumption.
+  - pose proof (rstep_core st re) as Hc. destruct (rstep st re) as [st1 o]. cbn [fst] in Hc.
+    destruct Hc as (_ & Hs & Hst2 & _). cbn [is_finish_ok is_sent]. rewrite !orb_false_r.
+    unfold TInv. rewrite <- Hs, <- Hst2. repeat split; assumption.
+Qed.
+
+Lemma run_tinv : forall (es : list event) (st : spill) (f s : bool), TInv st f s ->
+  let '(st', os) := run st es in TInv st' (f || existsb is_finish_ok os) (s || existsb is_sent os).
+Proof.
+  induction es as [|e es IH]; intros st f s HT; cbn [Model_Spill.run].
+  - cbn [existsb]. rewrite !orb_false_r. exact HT.
+  - pose proof (step_tinv st e f s HT) as H1. destruct (step st e) as [st1 o].
+    pose proof (IH st1 _ _ H1) as H2. destruct (run st1 es) as [st2 os].
+    cbn [existsb]. rewrite !orb_assoc. exact H2.
+Qed.
+
+Lemma status_flags (limit : N) (es : list event) :
+  let '(st, os) := run (init limit) es in
+  ws_error (sp_status st) = existsb is_sent os /\
+  ws_finished (sp_status st) = existsb is_finish_ok os || existsb is_sent os.
+Proof.
+  pose proof (run_tinv es (init limit) false false) as H.
+  destruct (run (init limit) es) as [st os]. cbn [orb] in H.
+  destruct H as (H1 & H2 & _); [repeat split | split; assumption].
+Qed.
+
+(* ---- T3: draining a reader of a finished spill *)
+Lemma skipn_nth_cons (W : list B) m b : nth_error W m = Some b -> skipn m W = b :: skipn (S m) W.
+Proof.
+  revert m; induction W as [|x W IH]; intros [|m] H; try discriminate.
+  - injection H as ->. reflexivity.
+  - cbn [nth_error] in H. cbn [skipn]. apply IH. exact H.
+Qed.
+
+Lemma drain_reader : forall (d : nat) (st : spill) (W : list B) (k : nat) (r : reader),
+  vis_ok st W -> Forall (reader_ok (sp_status st) W) (sp_readers st) ->
+  ws_finished (sp_status st) = true -> ws_error (sp_status st) = false ->
+  nth_error (sp_readers st) k = Some r -> rd_done r = false -> length W - rd_read r = d ->
+  snd (run st (repeat (ERead (RPoll k)) (S d))) =
+    map (fun b => ORead (OBatch b)) (skipn (rd_read r) W) ++ [ORead OEnd].
+Proof.
+  induction d as [|d IH]; intros st W k r Hvis HF Hfin Herr Hk Hd Hlen.
+  - assert (Hr : reader_ok (sp_status st) W r). { rewrite Forall_forall in HF. apply HF. eapply nth_error_In; exact Hk. }
+    assert (Hm : rd_read r = length W) by (destruct Hr as (Hle & _); lia).
+    cbn [repeat Model_Spill.run Model_Spill.step Model_Spill.rstep]. rewrite Hk.
+    pose proof (reader_read_live st W r Hvis Hr Hd Herr) as Hl.
+    destruct (reader_read st r) as [o r']. cbn [fst snd] in *.
+    assert (Hn : nth_error W (rd_read r) = None) by (apply nth_error_None; lia).
+    rewrite Hn, Hfin in Hl. subst o. rewrite Hm, skipn_all. reflexivity.
+  - assert (Hr : reader_ok (sp_status st) W r). { rewrite Forall_forall in HF. apply HF. eapply nth_error_In; exact Hk. }
+    assert (Hlt : rd_read r < length W) by lia.
+    destruct (nth_error W (rd_read r)) as [b|] eqn:En; [|apply nth_error_None in En; lia].
+    change (repeat (ERead (RPoll k)) (S (S d))) with (ERead (RPoll k) :: repeat (@ERead B (RPoll k)) (S d)).
+    cbn [Model_Spill.run Model_Spill.step Model_Spill.rstep]. rewrite Hk.
+    pose proof (reader_read_live st W r Hvis Hr Hd Herr) as Hl.
+    pose proof (reader_read_spec st W r Hvis Hr) as Hs.
+    destruct (reader_read st r) as [o r']. cbn [fst] in Hl. rewrite En in Hl. subst o.
+    destruct Hs as (Hr' & _ & Hrd & Hdone).
+    set (st1 := set_readers st (replace_nth k r' (sp_readers st))).
+    assert (Hk1 : nth_error (sp_readers st1) k = Some r').
+    { cbn [st1 set_readers sp_readers]. rewrite nth_error_replace_nth, Nat.eqb_refl.
+      assert (Hkl : k < length (sp_readers st)) by (apply nth_error_Some; congruence).
+      apply Nat.ltb_lt in Hkl. rewrite Hkl. reflexivity. }
+    specialize (IH st1 W k r').
+    assert (Hrun : snd (run st1 (repeat (ERead (RPoll k)) (S d))) =
+                   map (fun b => ORead (OBatch b)) (skipn (rd_read r') W) ++ [ORead OEnd]).
+    { apply IH; try assumption.
+      - cbn [st1 set_readers sp_readers sp_status]. apply Forall_replace_nth; assumption.
+      - lia. }
+    destruct (run st1 (repeat (ERead (RPoll k)) (S d))) as [st2 os]. cbn [snd] in *.
+    rewrite Hrun, (skipn_nth_cons W _ b En), Hrd. reflexivity.
+Qed.
+
+(* after any schedule in which finish succeeded and no error was sent, a reader opened NOW and polled
+   |W|+1 times yields exactly the written batches, in order, then the end of the stream *)
+Theorem replay_new_reader (limit : N) (es : list event) :
+  let '(st, os) := run (init limit) es in
+  existsb is_finish_ok os = true -> existsb is_sent os = false ->
+  snd (run st (ERead ROpen :: repeat (ERead (RPoll (length (sp_readers st)))) (S (length (written es os))))) =
+    ORead OOpened :: map (fun b => ORead (OBatch b)) (written es os) ++ [ORead OEnd].
+Proof.
+  pose proof (run_inv es (init limit) [] (Inv_init limit)) as H.
+  pose proof (status_flags limit es) as Hfl.
+  destruct (run (init limit) es) as [st os]. destruct H as ((Hvis & _ & HF) & _). destruct Hfl as (He & Hf).
+  cbn [app] in Hvis, HF. intros Hfin Hns. rewrite Hns in He. rewrite Hfin in Hf. cbn [orb] in Hf.
+  set (W := written es os) in *.
+  match goal with |- context [ERead ROpen :: ?l] => set (polls := l) end.
+  cbn [Model_Spill.run Model_Spill.step Model_Spill.rstep].
+  set (r0 := {| rd_read := 0; rd_cursor := None; rd_done := false |}).
+  set (st1 := set_readers st (sp_readers st ++ [r0])).
+  assert (Hd : snd (run st1 polls) = map (fun b => ORead (OBatch b)) (skipn (rd_read r0) W) ++ [ORead OEnd]).
+  { apply (drain_reader (length W) st1 W (length (sp_readers st)) r0); try assumption.
+    - unfold st1, r0; cbn [set_readers sp_readers sp_status]. apply Forall_app. split; [exact HF|].
+      constructor; [|constructor]. split; cbn [rd_read rd_done rd_cursor]; [lia | intros _; exact I].
+    - unfold st1; cbn [set_readers sp_readers]. rewrite nth_error_app2 by apply Nat.le_refl. rewrite Nat.sub_diag. reflexivity.
+    - reflexivity.
+    - unfold r0; cbn [rd_read]. lia. }
+  destruct (run st1 polls) as [st2 os2]. cbn [snd] in *. rewrite Hd. reflexivity.
 Qed.
 
 End SpillProofs.
